@@ -100,6 +100,8 @@ Definition judge_tile (t : mtext) (W H shrink border : Z) (obsN obsI : list sexp
     else if negb (match rgb with B bs => rgb_ok W H dn pixc bckg bs | _ => true end) then fail "c18-colour" [sym "rgb"]
     else if negb (oneline_ok t W H shrink border dn) then fail "c18-centre" [I 1]
     else if negb (twoline_ok t W H shrink border dn) then fail "c18-centre" [I 2]
+    else if negb (oneline_ink_ok (set_inverted t false) W H shrink border dn) then fail "c18-centre" [I 3]
+    else if negb (twoline_ink_ok (set_inverted t false) W H shrink border dn) then fail "c18-centre" [I 4]
     else if negb ((filled =? 1) && (kept =? 1)) then fail "c18-mutation" [I filled; I kept]
     else
       (* ---- correspondence with the model ---- *)
